@@ -28,7 +28,8 @@ func prepareOutdir(outdir string, importFiles []string, delExisted bool) error {
 		// remove all *.proto file but not Imports
 		imports := make(map[string]int)
 		for _, path := range importFiles {
-			imports[path] = 1
+			// compare by cleaned path: "./base.proto" names the file "base.proto"
+			imports[filepath.Clean(path)] = 1
 		}
 		files, err := os.ReadDir(outdir)
 		if err != nil {
